@@ -1,6 +1,7 @@
 """C04 - loading decodes foreign files per the format and skips unknown chunks."""
 import copy
 import json
+import struct
 
 from .. import fmt, gen, specdata, tlv
 from ..common import MachineryError
@@ -12,7 +13,8 @@ EVIDENCE = dict(
          "preserving edits of the fixtures and of generated files: a chunk with an unknown id (three different ids, also ids "
          "that only another section knows) inserted at chunk positions incl. inside embedded containers - TLC additionally "
          "checks Read(edited) = Read(original); each optional chunk dropped; the CVAL list truncated to every length; "
-         "independent header chunks reordered; (iii) reference-encoded files: TLC evaluates Write(s) for abstract "
+         "independent header chunks reordered; stored controller values outside the nominal ranges (module sections behind "
+         "embedded containers first); empty module positions appended behind the last module; (iii) reference-encoded files: TLC evaluates Write(s) for abstract "
          "descriptions (older version stamps, absent BVER, extreme field values), the TLV joiner makes bytes, the real reader "
          "loads them. MC_RVFormat checks Unknown (insertion invariance) and RW on the bounded model. "
          "non-trivial = an edited or reference-encoded file.",
@@ -57,6 +59,13 @@ def run(ctx):
         p.attach_pattern(api.PatternClone(source=len(p.patterns) - 1, x=-7 - i, y=-2147483648))
         p.attach_pattern(api.PatternClone(source=0, x=2147483647, y=-1, flags_PFFF=9))
         sources.append(("gen-clones%d.sunvox" % i, p.read()))
+    cl = gen.classes()
+    for i in range(5 if q else 60):      # MetaModules exposing all 96 / 95 / few user-defined controllers
+        gen.FORCE_UDC = [96, 96, 95, 89, 2][i % 5]
+        try:
+            sources.append(("gen-meta%d.sunsynth" % i, api.Synth(gen.rand_module(rnd, cl["MetaModule"], spec, depth=1, in_project=False)).read()))
+        finally:
+            gen.FORCE_UDC = None
     nfix = 0
     for name, data in sources:
         base = tlv.to_json_nested(data)
@@ -114,6 +123,23 @@ def run(ctx):
                 ed[a] = base[b]
             traces.append({"id": name + ".header-reordered", "events": [fmt.load_event(tlv.from_json_nested(ed), spec)]})
             ctx.count_case((name, "reorder"))
+        # (ii-g) stored controller values outside the library's nominal ranges (the encoding still denotes a value; the
+        #        reader is lenient): every CVAL of one module section overwritten, sections behind embedded containers first
+        secs = fmt.ranged_cval_sections(base, spec)
+        after_container = [sec for k, (sec, _) in enumerate(secs) if any(isn for _, isn in secs[:k + 1])]
+        pick = (after_container[:2] + [sec for sec, _ in secs][: (1 if q else 4)]) if q else after_container + [sec for sec, _ in secs]
+        for k, sec in enumerate(pick):
+            ed = fmt.out_of_range_variant(base, sec, rnd)
+            traces.append({"id": "%s.cvals-out-of-range#%d" % (name, k), "events": [fmt.load_event(tlv.from_json_nested(ed), spec)]})
+            ctx.count_case((name, "cval-oor", k, len(traces)))
+        # (ii-h) empty module positions appended behind the last module (SunVox writes its whole module table)
+        if base and base[0]["id"] == "SVOX":
+            last = max(j for j, c in enumerate(base) if c["id"] == "SEND") if any(c["id"] == "SEND" for c in base) else None
+            if last is not None:
+                for extra in ((1, 3) if q else (1, 2, 3, 5)):
+                    ed = base[:last + 1] + [{"id": "SEND", "data": [], "isn": False, "nested": []}] * extra + base[last + 1:]
+                    traces.append({"id": "%s.trailing-empty+%d" % (name, extra), "events": [fmt.load_event(tlv.from_json_nested(ed), spec)]})
+                    ctx.count_case((name, "trailing-empty", extra))
     # (ii-f) files without any slot chunk (as older SunVox versions wrote them): link-rich projects, every SLnK removed
     from .. import links
     for i in range(25 if q else 400):
